@@ -248,7 +248,44 @@ pub fn n3_pubprops_default_drop(s: &mut Src) {
     drop(p);
     vcover!(true, "ok");
 }
+pub fn q1_suback_body(s: &mut Src) {
+    let pid = s.u16(); let rc = s.u8();
+    vassume!(pid != 0 && (rc <= 2 || rc == 0x80));
+    let body = mp::v3::Suback { pid: mp::Pid::try_from(pid).unwrap(), topics: vec![v3_suback_from(rc)] };
+    let mut sink = ArrSink::<7>::new();
+    let r = mp::Encodable::encode(&body, &mut sink);
+    vassert!(sink.len == 3, "P|q1|len");
+    vassert!(mp::Encodable::encode_len(&body) == 3, "P|q1|elen");
+    vcover!(true, "ok");
+    done(r); done(body);
+}
+pub fn q2_suback_packet(s: &mut Src) {
+    let pid = s.u16(); let rc = s.u8();
+    vassume!(pid != 0 && (rc <= 2 || rc == 0x80));
+    let pkt = mp::v3::Packet::Suback(mp::v3::Suback { pid: mp::Pid::try_from(pid).unwrap(), topics: vec![v3_suback_from(rc)] });
+    match pkt.encode() {
+        Ok(vb) => { let b: &[u8] = vb.as_ref(); vassert!(b.len() == 5, "P|q2|len"); vcover!(true, "ok"); done(vb); }
+        Err(e) => { done(e); }
+    }
+    done(pkt);
+}
+pub fn q3_suback_packet_len(s: &mut Src) {
+    let pid = s.u16(); let rc = s.u8();
+    vassume!(pid != 0 && (rc <= 2 || rc == 0x80));
+    let pkt = mp::v3::Packet::Suback(mp::v3::Suback { pid: mp::Pid::try_from(pid).unwrap(), topics: vec![v3_suback_from(rc)] });
+    match pkt.encode_len() {
+        Ok(n) => { vassert!(n == 5, "P|q3|len"); vcover!(true, "ok"); }
+        Err(e) => { done(e); }
+    }
+    done(pkt);
+}
 scenarios! {
+    #[kani::unwind(8)]
+    probe_q1_suback_body [3] => q1_suback_body;
+    #[kani::unwind(8)]
+    probe_q2_suback_packet [3] => q2_suback_packet;
+    #[kani::unwind(8)]
+    probe_q3_suback_packet_len [3] => q3_suback_packet_len;
     #[kani::unwind(8)]
     #[kani::stub(<mqtt_proto_sync::Error as std::convert::From<std::io::Error>>::from, crate::model::from_io_eof_stub)]
     probe_n1_pubprops_bad [1] => n1_pubprops_bad;
